@@ -25,7 +25,7 @@ func (i *InMemoryStore) GetAllSessions() []PFCPSession {
 
 	i.sessions.Range(func(key, value interface{}) bool {
 		v := value.(PFCPSession)
-		sessions = append(sessions, v)
+		sessions = append(sessions, v.clone())
 		return true
 	})
 
@@ -39,7 +39,7 @@ func (i *InMemoryStore) PutSession(session PFCPSession) error {
 		return ErrInvalidArgument("session.localSEID", session.localSEID)
 	}
 
-	i.sessions.Store(session.localSEID, session)
+	i.sessions.Store(session.localSEID, session.clone())
 
 	logger.PfcpLog.With("session", session).Debugln("saved PFCP sessions to local store")
 
@@ -78,5 +78,5 @@ func (i *InMemoryStore) GetSession(fseid uint64) (PFCPSession, bool) {
 
 	logger.PfcpLog.With("session", session).Debugln("Got PFCP session from local store")
 
-	return session, ok
+	return session.clone(), ok
 }
